@@ -61,6 +61,7 @@ type vncCfg struct {
 	Delta    int   `json:"delta"`
 	Deadline int   `json:"deadline"` // seconds
 	Len      int   `json:"len"`      // initial length of the honest chain in model units
+	Free     int   `json:"free"`     // 1 = free running: all gates open, Extend delivers its blocks one by one; 2 = with a shallow reorg every 7th block
 }
 
 type vncObs struct {
@@ -306,6 +307,15 @@ func vncWhy(o *vncObs, tip vnRef) string {
 			break
 		}
 	}
+	var banned []string
+	for i := range o.Kind {
+		if i < len(o.Ban) && o.Ban[i] == 1 {
+			banned = append(banned, fmt.Sprintf("p%d", i+1))
+		}
+	}
+	if len(banned) > 0 {
+		p = append(p, "banned="+strings.Join(banned, "+"))
+	}
 	return strings.Join(p, ",")
 }
 
@@ -389,6 +399,9 @@ func vncRunOne(in vncPathIn, outFn, scratch string) (err error) {
 		}
 	}()
 
+	if r.cfg.Free >= 1 {
+		atomic.StoreInt32(&r.gate.allOpen, 1)
+	}
 	init := r.obs()
 	init.Cfg = &r.cfg
 	hdr, _ := json.Marshal(map[string]interface{}{"id": in.ID, "init_obs": init})
@@ -470,7 +483,20 @@ func vncRunOne(in vncPathIn, outFn, scratch string) (err error) {
 				a.Res = "noconn"
 			}
 		case "Extend":
-			r.net.Extend(r.cfg.Unit * a.N)
+			if k := r.cfg.Unit * a.N; r.cfg.Free >= 1 && k <= 400 {
+				// blocks arrive one by one, a few ms apart
+				for i := 1; i <= k; i++ {
+					if r.cfg.Free == 2 && i%7 == 0 {
+						// storm: frequent shallow reorganisations
+						r.net.Reorg(2, 3)
+					} else {
+						r.net.Extend(1)
+					}
+					time.Sleep(time.Duration(500+r.rng.Intn(2500)) * time.Microsecond)
+				}
+			} else {
+				r.net.Extend(k)
+			}
 		case "Reorg":
 			r.net.Reorg(r.cfg.Unit*a.D, r.cfg.Unit*a.D+r.cfg.Unit)
 		case "Settle", "Reverify":
